@@ -39,6 +39,15 @@ fn main() {
         }
         "saved" => engine::saved(prop, tier_of(&args[3])),
         "replay" => std::process::exit(engine::replay(prop, &args[3])),
+        "dump" => {
+            // `vcheck dump <ID> <seed>`: the input generated from a seed, with its decoded case.
+            let s: u64 = args[3].parse().unwrap();
+            let (la, lb) = prop.tape_lens(Tier::Quick);
+            let input = engine::Input { a: vlab::tape::tape_from_seed(s, la), b: vlab::tape::tape_from_seed(s ^ 0xABCD, lb) };
+            let ctx = engine::Ctx { tier: Tier::Quick, known: Default::default(), want_sample: true, strict: true };
+            let out = prop.run(&input, &ctx);
+            println!("{}", serde_json::json!({"property": prop.id(), "input": input.to_json(), "decoded": out.sample, "violations": out.violations.iter().map(|v| format!("{}: {}", v.sig, v.msg)).collect::<Vec<_>>()}));
+        }
         _ => usage(),
     }
 }
